@@ -44,7 +44,7 @@ Definition graph_of_matrix (m : matrix) : graph :=
   map (fun row => filter (fun e => nth e row false) (seq 0 (length row))) m.
 
 (* ---------- Tarjan ---------- *)
-Open Scope Z_scope.
+Local Open Scope Z_scope.
 
 Record tst := mkT {
   t_stack : list nat;            (* bottom first, as the Go slice *)
